@@ -65,7 +65,8 @@ def tree_key(sc):
 
 def cache_path(tk, o, feat):
     import hashlib
-    k = hashlib.sha256((tk + json.dumps(o, sort_keys=True) + feat).encode()).hexdigest()
+    sem = {k2: o.get(k2) for k2 in ("name", "crate", "fn", "args", "unwind", "stubs", "kani_flags")}
+    k = hashlib.sha256((tk + json.dumps(sem, sort_keys=True) + feat).encode()).hexdigest()
     return os.path.join(RESULT_CACHE, k + ".json")
 
 
